@@ -124,26 +124,26 @@ const synthMain = `package main
 
 import (
 	"fmt"
+	"runtime"
 	"strings"
+	"sync/atomic"
 
 	"github.com/hedzr/logg/slog"
 )
 
 type hook struct {
-	answer  bool
-	blocked int
-	spins   int
+	answer bool
+	spins  atomic.Int64
 }
 
 func (h *hook) Blocked(key uintptr) bool {
-	h.blocked++
 	if !h.answer {
 		return false
 	}
-	h.spins++
-	if h.spins%3 == 0 {
+	if h.spins.Add(1)%3 == 0 {
 		return false // sometimes: "nobody can help", the real operation must still be right
 	}
+	runtime.Gosched()
 	return true
 }
 func (h *hook) Released(key uintptr) {}
